@@ -200,7 +200,8 @@ func parseSignature(fn *ssa.Function, baseArg map[*ssa.Parameter]int64, depth in
 					add("ParseFloat")
 				default:
 					callee := x.Call.StaticCallee()
-					if callee != nil && IsModuleFunc(callee) && callee.Pkg != nil && callee.Pkg.Pkg.Path() == mlrvalPkg && strings.HasPrefix(callee.Name(), "infer") {
+					// an inferrer it delegates to, or a helper of the package it shares with its siblings (prefix stripping, say)
+					if callee != nil && IsModuleFunc(callee) && callee.Pkg != nil && callee.Pkg.Pkg.Path() == mlrvalPkg && callee.Signature.Recv() == nil && callee != fn {
 						ba := map[*ssa.Parameter]int64{}
 						for i, a := range x.Call.Args {
 							if k, ok := constInt(a); ok && i < len(callee.Params) {
